@@ -82,20 +82,21 @@ type HostPort struct {
 
 // PodDump is the scheduling-relevant part of a pod spec.
 type PodDump struct {
-	Key      string      `json:"key"` // namespace/name
-	UID      string      `json:"uid"`
-	Sel      [][2]string `json:"nodeSelector"` // sorted by key
-	Req      []Term      `json:"required"`
-	Pref     []WTerm     `json:"preferred"`
-	PAff     []WID       `json:"podAffinityPreferred"`
-	PAnti    []WID       `json:"podAntiAffinityPreferred"`
-	TSC      []TSC       `json:"topologySpread"`
-	Tols     []Tol       `json:"tolerations"`
-	Ports    []HostPort  `json:"hostPorts"`
-	Requests RL          `json:"requests"`           // k8s.io/component-helpers PodRequests + pods:1
-	Vols     [][2]string `json:"volumes"`            // (CSI driver, claim id), from the generator's knowledge (World.DumpPod)
-	VolTerms [][]Term    `json:"volumeTopology"`     // per volume the OR-ed topology terms (hostname dropped for local volumes)
-	VAlts    []Reqs      `json:"volumeAlternatives"` // PodData.VolumeRequirements as the code computed them (unit harnesses)
+	Key           string      `json:"key"` // namespace/name
+	UID           string      `json:"uid"`
+	Sel           [][2]string `json:"nodeSelector"` // sorted by key
+	Req           []Term      `json:"required"`
+	Pref          []WTerm     `json:"preferred"`
+	PAff          []WID       `json:"podAffinityPreferred"`
+	PAnti         []WID       `json:"podAntiAffinityPreferred"`
+	TSC           []TSC       `json:"topologySpread"`
+	Tols          []Tol       `json:"tolerations"`
+	Ports         []HostPort  `json:"hostPorts"`
+	Requests      RL          `json:"requests"`                // k8s.io/component-helpers PodRequests + pods:1
+	Vols          [][2]string `json:"volumes"`                 // (CSI driver, claim id), from the generator's knowledge (World.DumpPod)
+	VolTerms      [][]Term    `json:"volumeTopology"`          // per volume the OR-ed topology terms (hostname dropped for local volumes)
+	VAlts         []Reqs      `json:"volumeAlternatives"`      // PodData.VolumeRequirements as the code computed them (unit harnesses)
+	MissingClaims []string    `json:"missingClaims,omitempty"` // claims the pod references that do not exist (deleted by hand)
 }
 
 type OfferDump struct {
